@@ -1730,7 +1730,14 @@ class LeCreditBasedChannel(utils.EventEmitter):
         self.send_control_frame(request)
 
         # Wait for the connection to succeed or fail
-        return await connection_result
+        try:
+            return await connection_result
+        except asyncio.CancelledError:
+            # Nobody waits for the response any more (the caller gave up, or the
+            # channel was aborted): forget the request.
+            if requests.get(identifier) is request:
+                del requests[identifier]
+            raise
 
     async def disconnect(self) -> None:
         # Check that we're connected
@@ -3039,9 +3046,14 @@ class ChannelManager:
         # Connect
         try:
             await channel.connect()
-        except Exception:
-            logger.exception('connection failed')
-            del connection_channels[source_cid]
+        except BaseException:
+            # Also when the caller cancels the request (CancelledError), unless the
+            # channel got connected just before
+            if (
+                channel.state != LeCreditBasedChannel.State.CONNECTED
+                and connection_channels.get(source_cid) is channel
+            ):
+                del connection_channels[source_cid]
             raise
 
         return channel
@@ -3143,10 +3155,18 @@ class ChannelManager:
         # Connect
         try:
             await connection_result
-        except Exception:
-            logger.exception('connection failed')
-            for cid in source_cids:
-                del connection_channels[cid]
+        except BaseException:
+            # Also when the caller cancels the request (CancelledError)
+            # (unless the channels got connected just before)
+            for cid, channel in zip(source_cids, channels):
+                if (
+                    channel.state != LeCreditBasedChannel.State.CONNECTED
+                    and connection_channels.get(cid) is channel
+                ):
+                    del connection_channels[cid]
+            pending = pending_connections.get(identifier)
+            if pending is not None and pending[0] is connection_result:
+                del pending_connections[identifier]
             raise
 
         return channels
